@@ -21,7 +21,8 @@ def run(ctx):
              "ascoded.cfg": CFG % (6, "FALSE", "AllActs", "SafeCall", "VIEW DesignView"),
              "g5.cfg": CFG % (5, "FALSE", "AllActs", "Emit", ""),
              "g6u.cfg": CFG % (6, "FALSE", "AllActs", "EmitUnsafe", ""),
-             "focus.cfg": CFG % (8, "FALSE", "FocusActs", "EmitGone", "")}
+             "focus.cfg": CFG % (8, "FALSE", "FocusActs", "EmitGone", ""),
+             "cache.cfg": CFG % (5 if q else 6, "FALSE", "CacheActs", "EmitCache", "")}
     ctx.tlc("Lifecycle", "demanded.cfg", extra_files=files, tag="design:demanded-keep-alive-edges", timeout=3000)
     r = ctx.tlc("Lifecycle", "ascoded.cfg", extra_files=files, expect_ok=False, tag="design:edges-as-coded")
     if r["violation"]:
@@ -42,7 +43,11 @@ def run(ctx):
         focus = ctx.tlc("Lifecycle", "focus.cfg", extra_files=files, design=False, tag="gen:second-importer-after-close")["emitted"]
         if q:
             focus = rnd.sample(focus, min(len(focus), 200))
-        beh = beh + focus
+        cache = ctx.tlc("Lifecycle", "cache.cfg", extra_files=files, design=False, tag="gen:compilation-cache-closed-under-live-instances")["emitted"]
+        if q:
+            cache = rnd.sample(cache, min(len(cache), 150))
+        ctx.extra["cache_close_histories"] = len(cache)
+        beh = beh + focus + cache
         ctx.extra["histories"] = {"depth5_enumerated": n5, "model_unsafe_depth6": len(unsafe), "replayed": len(beh) + len(unsafe)}
         beh = beh + unsafe
         for k, b in enumerate(beh):
